@@ -13,8 +13,16 @@ so members are neither invented nor lost.  The executable `closure` is what the 
 with the real server's member completion / member go-to-definition on generated hierarchies.
 -/
 import LuaHelper.Spec.Closure
+import LuaHelper.Gen.Shapes
 namespace LuaHelper.C15
 open LuaHelper.Closure
+
+/-- the real collector (getClassTypeInfoList), as it stands in /repo now: in both look-up branches a
+    declaration is marked visited BEFORE its parents and its alias target are expanded — the order that
+    makes the recursion stop on cycles (`go` marks `n :: vis` before visiting `succs g n`) -/
+theorem collector_marks_before_expanding :
+    Gen.closureOrder = ["mark", "parents", "alias", "mark", "parents", "alias"] := by decide
+#print axioms collector_marks_before_expanding
 
 /-- the invariant that makes the result closed under successors -/
 theorem go_closed (g : Graph) (nodes work vis : List Name) :
